@@ -49,6 +49,15 @@ func (r *oneByteReader) Read(p []byte) (int, error) {
 }
 
 func init() {
+	known.DecWitnesses[known.DecSliceReuse] = func() (bool, string) {
+		type T struct{ C []float32 }
+		mk := func() *T { return &T{C: []float32{1.5, 2.5}} }
+		a, b := mk(), mk()
+		doc := []byte(`{"C":[0],"C":[0,null]}`)
+		e1 := stdjson.Unmarshal(doc, a)
+		e2 := gojson.Unmarshal(doc, b)
+		return e1 != nil || e2 != nil || !reflect.DeepEqual(a, b), fmt.Sprintf("std=%v go=%v", *a, *b)
+	}
 	known.DecWitnesses["FX-DEC-key-lone-surrogate"] = func() (bool, string) {
 		doc := `{"a":null,"` + "\\" + `ud800":null,"A":2}`
 		type T struct{ A int }
